@@ -141,6 +141,35 @@ def o_c01(run):
 
 # --------------------------------------------------------------------------------------------- C02
 
+def o_c02_bin(run):
+    """the real executable (no state dumps): the latest version is tracked from the 200 answers; a 409 must name it"""
+    out = []
+    if run.kv.get('binary') != '1' or run.setup != 'binary':
+        return out
+    latest = {}
+    for r in run.recs:
+        if r.ws[0] == 'reopen':
+            continue
+        if r.ws[0] != 'http' or r.op != 'av' or (r.meta or {}).get('unlisted') == '1':
+            continue
+        ih = parse_http_obs(r.impl)
+        if not ih:
+            continue
+        c, st = r.client, ih.get('status')
+        cur = latest.get(c, NIL)
+        should = cur == NIL or r.arg == cur
+        if st == 200:
+            if not should:
+                out.append(fail('C02: accepted exactly when the client has no versions or p is the latest', r, f'latest={cur} p={r.arg} answered 200'))
+            if ih.get('vid') not in (None, '-'):
+                latest[c] = ih['vid']
+        elif st == 409:
+            if should:
+                out.append(fail('C02: accepted exactly when the client has no versions or p is the latest', r, f'latest={cur} p={r.arg} answered 409'))
+            elif ih.get('pvid') != cur:
+                out.append(fail('C02: a rejection names the current latest version', r, f'latest={cur} named={ih.get("pvid")} (real executable)'))
+    return out
+
 def o_c02(run):
     out = []
     for g, pd, praw, st in iterate(run):
@@ -210,7 +239,11 @@ def o_c07(run):
     return out
 
 def o_c06(run):
-    out = o_c07(run)
+    out = []
+    for x in o_c07(run):
+        x = dict(x)
+        x['sentence'] = 'C06: the bytes returned for a version are exactly the bytes uploaded in the request that created it, with the matching ids [' + x.get('sentence', '') + ']'
+        out.append(x)
     for g, pd, praw, st in iterate(run):
         for r in g.ops:
             if r.op == 'gs' and r.i_out[0] == 'some':
@@ -988,6 +1021,8 @@ def o_c17(run):
             continue
         ih = parse_http_obs(r.impl)
         st = ih.get('status') if ih else None
+        if m.get('case'):
+            continue      # the other outcome classes: compared with the model and judged by the oracles of C02 / C14
         if m.get('route') == 'index' and st != 200:
             out.append(fail('C17: it serves on every listen address given', r, f'GET / on port #{m.get("port")} answered {st}'))
         if m.get('unlisted') == '1' and st != 403:
